@@ -18,8 +18,9 @@
 //     decorator that forwards every virtual to the real NetworkInterface and
 //     pauses when recieveTagged() found nothing.
 // No Galois code is changed and no message is altered, dropped or reordered;
-// only the idle-poll frequency changes.  VERIF_E4_NOPACE=1 disables both
-// pauses at run time (the unmodified busy-polling behaviour).
+// only the idle-poll frequency changes, and only where the harness enables it
+// (e4::pace_on(true): the sync loops of C18).  VERIF_E4_NOPACE=1 disables it
+// everywhere (the unmodified busy-polling behaviour).
 #ifndef VERIF_E4_PACE_H
 #define VERIF_E4_PACE_H
 
@@ -30,12 +31,22 @@
 #include <time.h>
 
 namespace e4 {
-inline bool pace_enabled() {
-  static int on = -1;
-  if (on < 0)
-    on = getenv("VERIF_E4_NOPACE") ? 0 : 1;
-  return on != 0;
+// Pacing is OFF unless the harness switches it on for a stretch of code.
+// It is used ONLY around the Gluon sync loops of c18_gluon.cpp.  It is never
+// on while CuSP partitions or a GluonSubstrate is being constructed: with the
+// naps active, back-to-back partitions with the asynchronous master
+// assignment occasionally ended with the two hosts in different protocol
+// steps (8-10 stalled sessions per ~1500 partitions; 0 in 2805 without the
+// naps).  Whether that is a timing sensitivity of the code under test or of
+// this shim was not established, so the shim stays away from that code.
+inline int& pace_flag() {
+  static int on = 0;
+  return on;
 }
+inline void pace_on(bool on) {
+  pace_flag() = (on && !getenv("VERIF_E4_NOPACE")) ? 1 : 0;
+}
+inline bool pace_enabled() { return pace_flag() != 0; }
 inline void idle_pause(unsigned& misses) {
   if (++misses < 64 || !pace_enabled())
     return;
